@@ -189,5 +189,313 @@ theorem angle_rigid (T : Trans K) (R : M3 K) (t : V3 K) (h : IsOrtho R) (p1 p2 p
     angleModel T (rigid R t p1) (rigid R t p2) (rigid R t p3) = angleModel T p1 p2 p3 := by
   simp only [angleModel, vecAngle, vecCos_dots, sub_rigid, dot_rot R h]
 
+
+/-! ### model and specification describe the same point of the unit circle -/
+
+/-- **torsion_circle** (Lagrange): `(n1·n2)² + |b2|² [b1,b2,b3]² = |n1|² |n2|²` — the pair
+    `(n1·n2, |b2|·[b1,b2,b3]) / (|n1||n2|)` is a point of the unit circle; its first coordinate is the model's
+    `acos` argument, the sign of the second is the model's `direction`: the model's angle is the `atan2` of the
+    specification -/
+theorem torsion_circle (v1 v2 v3 : V3 K) :
+    tNum v1 v2 v3 * tNum v1 v2 v3 + sdot v2 v2 * (triple v1 v2 v3 * triple v1 v2 v3) = nSq v1 v2 * nSq v2 v3 := by
+  simp only [tNum, nSq, sdot, triple]; ring
+
+theorem spec_x_eq (p1 p2 p3 p4 : V3 K) : specTorsionX p1 p2 p3 p4 = torsionNum p1 p2 p3 p4 := rfl
+
+/-- the specification's `(x, y)` has radius `|n1||n2|`, whatever `sqrt` is as long as `sqrt(b2·b2)² = b2·b2` -/
+theorem spec_circle (T : Trans K) (p1 p2 p3 p4 : V3 K)
+    (hs : T.sqrt (sdot (p3.sub p2) (p3.sub p2)) * T.sqrt (sdot (p3.sub p2) (p3.sub p2)) = sdot (p3.sub p2) (p3.sub p2)) :
+    specTorsionX p1 p2 p3 p4 * specTorsionX p1 p2 p3 p4 + specTorsionY T p1 p2 p3 p4 * specTorsionY T p1 p2 p3 p4
+      = sq3 ((p2.sub p1).cross (p3.sub p2)) * sq3 ((p3.sub p2).cross (p4.sub p3)) := by
+  rw [spec_x_eq, torsionNum_eq, sq3_cross, sq3_cross, ← torsion_circle]
+  simp only [specTorsionY]
+  linear_combination (triple (p2.sub p1) (p3.sub p2) (p4.sub p3) * triple (p2.sub p1) (p3.sub p2) (p4.sub p3)) * hs
+
+/-! ### the convention: positive = clockwise looking down the central bond -/
+
+/-- **torsion_canonical**.  Put the central bond B→C on the +z axis with B at the origin and A over the +x axis:
+    `A = (r1, 0, h1), B = 0, C = (0, 0, L), D = (r2 c, r2 s, L + h2)`.  The viewer at B looking towards C looks along
+    +z and sees the rotation +x → +y as *clockwise*; D is reached from the direction of A by the clockwise turn of
+    angle φ with `(cos φ, sin φ) = (c, s)`.  In this frame the code's quantities are
+    `direction = r1 r2 L s`, `n1·n2 = r1 r2 L² c`, `|n1|² = (r1 L)²`, `|n2|² = (r2 L)² (c² + s²)`,
+    so for `r1, r2, L > 0` the sign of the result is the sign of `sin φ` and the `acos` argument is `cos φ`. -/
+theorem torsion_canonical (r1 h1 L r2 h2 c s : K) :
+    let A : V3 K := ⟨r1, 0, h1⟩
+    let B : V3 K := ⟨0, 0, 0⟩
+    let C : V3 K := ⟨0, 0, L⟩
+    let D : V3 K := ⟨r2 * c, r2 * s, L + h2⟩
+    direction A B C D = r1 * r2 * L * s ∧ torsionNum A B C D = r1 * r2 * (L * L) * c
+      ∧ sq3 ((B.sub A).cross (C.sub B)) = (r1 * L) * (r1 * L)
+      ∧ sq3 ((C.sub B).cross (D.sub C)) = (r2 * L) * (r2 * L) * (c * c + s * s) := by
+  simp only [direction, directionCode, torsionNum, sq3, V3.sub, V3.cross]
+  refine ⟨by ring, by ring, by ring, by ring⟩
+
 end algebra
+
+/-- the witness of the convention: atoms at (1,0,0), (0,0,0), (0,0,1), (0,1,1) — looking from B=(0,0,0) to C=(0,0,1),
+    A lies towards +x and D towards +y: a clockwise quarter turn, +90°.  The code's `direction` is positive and its
+    cosine numerator zero; the typo expression agreed here, which is why a fixture with this shape passes. -/
+example : 0 < direction (⟨1, 0, 0⟩ : V3 ℚ) ⟨0, 0, 0⟩ ⟨0, 0, 1⟩ ⟨0, 1, 1⟩
+    ∧ torsionNum (⟨1, 0, 0⟩ : V3 ℚ) ⟨0, 0, 0⟩ ⟨0, 0, 1⟩ ⟨0, 1, 1⟩ = 0
+    ∧ 0 < triple ((⟨0, 0, 0⟩ : V3 ℚ).sub ⟨1, 0, 0⟩) ((⟨0, 0, 1⟩ : V3 ℚ).sub ⟨0, 0, 0⟩) ((⟨0, 1, 1⟩ : V3 ℚ).sub ⟨0, 0, 1⟩) := by
+  simp only [direction, directionCode, torsionNum, triple, V3.sub, V3.cross]; norm_num
+
+/-- a rotation by 90° about z followed by a translation is a proper rigid motion (hypotheses of `torsion_rigid`) -/
+example : IsOrtho (⟨0, -1, 0, 1, 0, 0, 0, 0, 1⟩ : M3 ℚ) ∧ (⟨0, -1, 0, 1, 0, 0, 0, 0, 1⟩ : M3 ℚ).det = 1 := by
+  refine ⟨⟨?_, ?_, ?_, ?_, ?_, ?_⟩, ?_⟩ <;> simp only [M3.det] <;> norm_num
+
+/-- the mirror `z ↦ -z` is orthogonal with determinant -1 (hypotheses of `torsion_mirror`) -/
+example : IsOrtho (⟨1, 0, 0, 0, 1, 0, 0, 0, -1⟩ : M3 ℚ) ∧ (⟨1, 0, 0, 0, 1, 0, 0, 0, -1⟩ : M3 ℚ).det = -1 := by
+  refine ⟨⟨?_, ?_, ?_, ?_, ?_, ?_⟩, ?_⟩ <;> simp only [M3.det] <;> norm_num
+
+
+/-! ### order: mirror image, ranges (over ℝ) -/
+
+section real
+
+/-- **torsion_mirror**: in the mirror image (`RᵀR = 1`, `det R = -1`, any translation) the `acos` argument is the same
+    (`torsionCos_rigid`) and the result has the opposite sign.  Hypotheses: `degrees` is odd; `direction ≠ 0` — a planar
+    arrangement is its own mirror image, there the code returns the same value `degrees(-ang)` for both. -/
+theorem torsion_mirror (T : Trans ℝ) (hdeg : ∀ x, T.deg (-x) = -T.deg x) (R : M3 ℝ) (t : V3 ℝ) (h : IsOrtho R)
+    (hdet : R.det = -1) (p1 p2 p3 p4 : V3 ℝ) (hd : direction p1 p2 p3 p4 ≠ 0) :
+    torsionModel T (rigid R t p1) (rigid R t p2) (rigid R t p3) (rigid R t p4) = -torsionModel T p1 p2 p3 p4 := by
+  simp only [torsionModel, torsionCos_rigid T R t h, direction_rigid, hdet]
+  rcases lt_or_gt_of_ne hd with hneg | hpos
+  · have h1 : (0 : ℝ) < -1 * direction p1 p2 p3 p4 := by linarith
+    have h2 : ¬ (0 : ℝ) < direction p1 p2 p3 p4 := by linarith
+    rw [if_pos h1, if_neg h2, hdeg, neg_neg]
+  · have h1 : ¬ (0 : ℝ) < -1 * direction p1 p2 p3 p4 := by linarith
+    rw [if_neg h1, if_pos hpos, hdeg]
+
+example : direction (⟨1, 0, 0⟩ : V3 ℝ) ⟨0, 0, 0⟩ ⟨0, 0, 1⟩ ⟨0, 1, 1⟩ ≠ 0 := by
+  simp only [direction, directionCode, V3.sub]; norm_num
+
+/-- what is assumed of `math.sqrt` -/
+structure SqrtOK (T : Trans ℝ) : Prop where
+  nonneg : ∀ x, 0 ≤ x → 0 ≤ T.sqrt x
+  sq : ∀ x, 0 ≤ x → T.sqrt x * T.sqrt x = x
+
+/-- what is assumed of `math.acos` and `math.degrees` (`pi` is the number π) -/
+structure AcosOK (T : Trans ℝ) (pi : ℝ) : Prop where
+  pi_pos : 0 < pi
+  range : ∀ x, -1 ≤ x → x ≤ 1 → 0 ≤ T.acos x ∧ T.acos x ≤ pi
+  top : ∀ x, -1 ≤ x → x ≤ 1 → T.acos x = pi → x = -1
+  deg : ∀ x, T.deg x = x * (180 / pi)
+
+/-- what is assumed of `round(., 9)` -/
+structure RoundOK (T : Trans ℝ) : Prop where
+  mono : ∀ x y, x ≤ y → T.round9 x ≤ T.round9 y
+  zero : T.round9 0 = 0
+  top : T.round9 180 = 180
+
+theorem sdot_self_nonneg (v : V3 ℝ) : 0 ≤ sdot v v :=
+  add_nonneg (add_nonneg (mul_self_nonneg _) (mul_self_nonneg _)) (mul_self_nonneg _)
+
+/-- Cauchy–Schwarz, from Lagrange's identity -/
+theorem cauchy_schwarz (v w : V3 ℝ) : sdot v w * sdot v w ≤ sdot v v * sdot w w := by
+  have h := cross_dot_cross v w v w
+  have h0 := sdot_self_nonneg (v.cross w)
+  rw [sdot_comm w v] at h
+  linarith
+
+theorem sqrt_pos_of_pos (T : Trans ℝ) (hs : SqrtOK T) (x : ℝ) (hx : 0 < x) : 0 < T.sqrt x := by
+  have h1 := hs.nonneg x hx.le
+  have h2 := hs.sq x hx.le
+  rcases h1.lt_or_eq with h | h
+  · exact h
+  · rw [← h] at h2; linarith
+
+theorem quot_range (n s : ℝ) (hs : 0 < s) (h : n * n ≤ s * s) : -1 ≤ n / s ∧ n / s ≤ 1 := by
+  have h1 : n ≤ s := by
+    by_contra hc
+    have hc' := not_le.mp hc
+    nlinarith
+  have h2 : -s ≤ n := by
+    by_contra hc
+    have hc' := not_le.mp hc
+    nlinarith
+  constructor
+  · rw [le_div_iff₀ hs]; linarith
+  · rw [div_le_one hs]; exact h1
+
+/-- the quotient handed to `acos` is a cosine: it lies in `[-1, 1]` whenever both vectors are non-zero -/
+theorem cos_range (T : Trans ℝ) (hs : SqrtOK T) (a b : V3 ℝ) (ha : 0 < sdot a a) (hb : 0 < sdot b b) :
+    -1 ≤ sdot a b / (T.sqrt (sdot a a) * T.sqrt (sdot b b)) ∧ sdot a b / (T.sqrt (sdot a a) * T.sqrt (sdot b b)) ≤ 1 := by
+  apply quot_range
+  · exact mul_pos (sqrt_pos_of_pos T hs _ ha) (sqrt_pos_of_pos T hs _ hb)
+  · have h1 := hs.sq _ ha.le
+    have h2 := hs.sq _ hb.le
+    have h3 := cauchy_schwarz a b
+    calc sdot a b * sdot a b ≤ sdot a a * sdot b b := h3
+      _ = (T.sqrt (sdot a a) * T.sqrt (sdot a a)) * (T.sqrt (sdot b b) * T.sqrt (sdot b b)) := by rw [h1, h2]
+      _ = _ := by ring
+
+theorem sdot_sub_pos_of_ne (p q : V3 ℝ) (h : p ≠ q) : 0 < sdot (q.sub p) (q.sub p) := by
+  rcases (sdot_self_nonneg (q.sub p)).lt_or_eq with h1 | h1
+  · exact h1
+  · exfalso
+    apply h
+    simp only [sdot, V3.sub] at h1
+    have hx : q.x - p.x = 0 := by nlinarith [mul_self_nonneg (q.x - p.x), mul_self_nonneg (q.y - p.y), mul_self_nonneg (q.z - p.z)]
+    have hy : q.y - p.y = 0 := by nlinarith [mul_self_nonneg (q.x - p.x), mul_self_nonneg (q.y - p.y), mul_self_nonneg (q.z - p.z)]
+    have hz : q.z - p.z = 0 := by nlinarith [mul_self_nonneg (q.x - p.x), mul_self_nonneg (q.y - p.y), mul_self_nonneg (q.z - p.z)]
+    cases p; cases q
+    simp only [V3.mk.injEq]
+    simp only at hx hy hz
+    refine ⟨by linarith, by linarith, by linarith⟩
+
+/-- **angle_cos_range**: for three atoms with `p1 ≠ p2 ≠ p3` the argument of `acos` in `Atoms.angle` lies in `[-1, 1]`
+    (Cauchy–Schwarz), so `acos` is defined -/
+theorem angle_cos_range (T : Trans ℝ) (hs : SqrtOK T) (p1 p2 p3 : V3 ℝ) (h12 : p1 ≠ p2) (h32 : p3 ≠ p2) :
+    -1 ≤ angleCos T p1 p2 p3 ∧ angleCos T p1 p2 p3 ≤ 1 := by
+  simp only [angleCos, vecCos_dots]
+  exact cos_range T hs _ _ (sdot_sub_pos_of_ne p1 p2 h12) (sdot_sub_pos_of_ne p3 p2 h32)
+
+theorem deg_range (T : Trans ℝ) (pi : ℝ) (ha : AcosOK T pi) (x : ℝ) (h0 : 0 ≤ x) (h1 : x ≤ pi) :
+    0 ≤ T.deg x ∧ T.deg x ≤ 180 := by
+  have hp := ha.pi_pos
+  rw [ha.deg]
+  have hk : 0 < 180 / pi := div_pos (by norm_num) hp
+  constructor
+  · exact mul_nonneg h0 hk.le
+  · calc x * (180 / pi) ≤ pi * (180 / pi) := mul_le_mul_of_nonneg_right h1 hk.le
+      _ = 180 := by field_simp
+
+/-- **angle_range**: `Atoms.angle` lies in `[0, 180]` -/
+theorem angle_range (T : Trans ℝ) (pi : ℝ) (hs : SqrtOK T) (ha : AcosOK T pi) (hr : RoundOK T) (p1 p2 p3 : V3 ℝ)
+    (h12 : p1 ≠ p2) (h32 : p3 ≠ p2) : 0 ≤ angleModel T p1 p2 p3 ∧ angleModel T p1 p2 p3 ≤ 180 := by
+  obtain ⟨c1, c2⟩ := angle_cos_range T hs p1 p2 p3 h12 h32
+  obtain ⟨a1, a2⟩ := ha.range _ c1 c2
+  obtain ⟨d1, d2⟩ := deg_range T pi ha _ a1 a2
+  have e : angleModel T p1 p2 p3 = T.round9 (T.deg (T.acos (angleCos T p1 p2 p3))) := rfl
+  rw [e]
+  constructor
+  · rw [← hr.zero]; exact hr.mono _ _ d1
+  · rw [← hr.top]; exact hr.mono _ _ d2
+
+example : (⟨1, 0, 0⟩ : V3 ℝ) ≠ ⟨0, 0, 0⟩ := by simp
+
+/-- three atoms that are not on one line: `|b1 × b2|² > 0` (the property's "bounded away from collinearity") -/
+def NonCollinear (p1 p2 p3 : V3 ℝ) : Prop := 0 < sq3 ((p2.sub p1).cross (p3.sub p2))
+
+theorem clamp_id (x : ℝ) (h1 : -1 ≤ x) (h2 : x ≤ 1) : clampUnit x = x := by
+  unfold clampUnit
+  rcases h2.lt_or_eq with h | h
+  · rw [if_pos h]
+    rcases h1.lt_or_eq with h' | h'
+    · simp only [if_pos h']
+    · simp only [← h']; norm_num
+  · subst h; norm_num
+
+/-- **torsion_cos_range**: for non-collinear A,B,C and B,C,D the argument of `acos` lies in `[-1, 1]`; the clamp of
+    fixes/C15_3 is then the identity (it only acts on rounding excess) -/
+theorem torsion_cos_range (T : Trans ℝ) (hs : SqrtOK T) (p1 p2 p3 p4 : V3 ℝ) (h1 : NonCollinear p1 p2 p3)
+    (h2 : NonCollinear p2 p3 p4) :
+    (-1 ≤ torsionCos T p1 p2 p3 p4 ∧ torsionCos T p1 p2 p3 p4 ≤ 1)
+      ∧ clampUnit (torsionCos T p1 p2 p3 p4) = torsionCos T p1 p2 p3 p4 := by
+  have h := cos_range T hs ((p2.sub p1).cross (p3.sub p2)) ((p3.sub p2).cross (p4.sub p3)) h1 h2
+  have e : torsionCos T p1 p2 p3 p4 = sdot ((p2.sub p1).cross (p3.sub p2)) ((p3.sub p2).cross (p4.sub p3))
+      / (T.sqrt (sdot ((p2.sub p1).cross (p3.sub p2)) ((p2.sub p1).cross (p3.sub p2)))
+        * T.sqrt (sdot ((p3.sub p2).cross (p4.sub p3)) ((p3.sub p2).cross (p4.sub p3)))) := rfl
+  rw [e]
+  exact ⟨h, clamp_id _ h.1 h.2⟩
+
+/-- the trans-planar arrangement: the four atoms lie in one plane (`direction = 0`) with A and D on opposite sides
+    of the central bond (`n1·n2 < 0`), torsion angle 180° -/
+def TransPlanar (p1 p2 p3 p4 : V3 ℝ) : Prop := direction p1 p2 p3 p4 = 0 ∧ torsionNum p1 p2 p3 p4 < 0
+
+/-- the full-strength range statement of the property.  It is FALSE for the code as it is (`torsion_range_fails_on`):
+    known finding `C15|torsion|range|trans-planar|-180`. -/
+def TorsionRangeStatement : Prop :=
+  ∀ (T : Trans ℝ) (pi : ℝ), SqrtOK T → AcosOK T pi → ∀ p1 p2 p3 p4 : V3 ℝ, NonCollinear p1 p2 p3 → NonCollinear p2 p3 p4 →
+    -180 < torsionModel T p1 p2 p3 p4 ∧ torsionModel T p1 p2 p3 p4 ≤ 180
+
+/-- **torsion_range_partial**: the torsion angle lies in `(-180, 180]` for every non-degenerate quadruple that is not
+    trans-planar.  The extra hypothesis excludes exactly the class of the known finding: there `direction = 0` is not
+    `> 0` and the code returns `degrees(-π) = -180`. -/
+theorem torsion_range_partial (T : Trans ℝ) (pi : ℝ) (hs : SqrtOK T) (ha : AcosOK T pi) (p1 p2 p3 p4 : V3 ℝ)
+    (h1 : NonCollinear p1 p2 p3) (h2 : NonCollinear p2 p3 p4) (hntp : ¬ TransPlanar p1 p2 p3 p4) :
+    -180 < torsionModel T p1 p2 p3 p4 ∧ torsionModel T p1 p2 p3 p4 ≤ 180 := by
+  obtain ⟨⟨c1, c2⟩, hcl⟩ := torsion_cos_range T hs p1 p2 p3 p4 h1 h2
+  obtain ⟨a1, a2⟩ := ha.range _ c1 c2
+  obtain ⟨d1, d2⟩ := deg_range T pi ha _ a1 a2
+  have hp := ha.pi_pos
+  have hk : 0 < 180 / pi := div_pos (by norm_num) hp
+  simp only [torsionModel, hcl]
+  by_cases hdir : 0 < direction p1 p2 p3 p4
+  · rw [if_pos hdir]; exact ⟨by linarith, d2⟩
+  · rw [if_neg hdir, ha.deg]
+    rw [ha.deg] at d1 d2
+    refine ⟨?_, by linarith⟩
+    -- ang < pi, because ang = pi forces the trans-planar arrangement
+    have hlt : T.acos (torsionCos T p1 p2 p3 p4) < pi := by
+      rcases a2.lt_or_eq with h | h
+      · exact h
+      · exfalso
+        have hc := ha.top _ c1 c2 h
+        apply hntp
+        -- cos = -1: numerator = -(s1 s2), so n1·n2 < 0 and (n1·n2)² = |n1|²|n2|², hence the triple product vanishes
+        set v1 := p2.sub p1
+        set v2 := p3.sub p2
+        set v3 := p4.sub p3
+        have hn1 : 0 < nSq v1 v2 := by rw [← sq3_cross]; exact h1
+        have hn2 : 0 < nSq v2 v3 := by rw [← sq3_cross]; exact h2
+        have s1 := sqrt_pos_of_pos T hs _ hn1
+        have s2 := sqrt_pos_of_pos T hs _ hn2
+        have q1 := hs.sq _ hn1.le
+        have q2 := hs.sq _ hn2.le
+        rw [torsionCos_dots] at hc
+        have hnum : tNum v1 v2 v3 = -(T.sqrt (nSq v1 v2) * T.sqrt (nSq v2 v3)) := by
+          have hne : T.sqrt (nSq v1 v2) * T.sqrt (nSq v2 v3) ≠ 0 := (mul_pos s1 s2).ne'
+          have := (div_eq_iff hne).mp hc
+          linarith
+        have hcirc := torsion_circle v1 v2 v3
+        have hsq : tNum v1 v2 v3 * tNum v1 v2 v3 = nSq v1 v2 * nSq v2 v3 := by
+          have e : tNum v1 v2 v3 * tNum v1 v2 v3
+              = (T.sqrt (nSq v1 v2) * T.sqrt (nSq v1 v2)) * (T.sqrt (nSq v2 v3) * T.sqrt (nSq v2 v3)) := by
+            rw [hnum]; ring
+          rw [e, q1, q2]
+        have hv2 : 0 < sdot v2 v2 := by
+          rcases (sdot_self_nonneg v2).lt_or_eq with h' | h'
+          · exact h'
+          · exfalso
+            have : nSq v1 v2 = -(sdot v1 v2 * sdot v1 v2) := by simp only [nSq, ← h']; ring
+            nlinarith [mul_self_nonneg (sdot v1 v2)]
+        have htri : triple v1 v2 v3 * triple v1 v2 v3 = 0 := by
+          have : sdot v2 v2 * (triple v1 v2 v3 * triple v1 v2 v3) = 0 := by linarith
+          rcases mul_eq_zero.mp this with h' | h'
+          · linarith
+          · exact h'
+        have htri0 : triple v1 v2 v3 = 0 := mul_self_eq_zero.mp htri
+        refine ⟨by rw [direction_eq]; exact htri0, ?_⟩
+        rw [torsionNum_eq, hnum]
+        have := mul_pos s1 s2
+        linarith
+    have : -(T.acos (torsionCos T p1 p2 p3 p4)) * (180 / pi) > -(pi * (180 / pi)) := by nlinarith
+    have e : pi * (180 / pi) = 180 := by field_simp
+    linarith
+
+/-- **torsion_range_fails_on**: atoms at (1,0,0), (0,0,0), (0,0,1), (-1,0,1) (trans-planar).  For *every* admissible
+    `sqrt`, `acos`, `degrees` with `acos(-1) = π` the code's result is `-180`, outside `(-180, 180]`.
+    (Replayed on the implementation in every run: `WITNESS` in harness/props/c15.py.) -/
+theorem torsion_range_fails_on (T : Trans ℝ) (pi : ℝ) (hs : SqrtOK T) (ha : AcosOK T pi) (hpi : T.acos (-1) = pi) :
+    NonCollinear ⟨1, 0, 0⟩ ⟨0, 0, 0⟩ ⟨0, 0, 1⟩ ∧ NonCollinear ⟨0, 0, 0⟩ ⟨0, 0, 1⟩ ⟨-1, 0, 1⟩
+      ∧ TransPlanar ⟨1, 0, 0⟩ ⟨0, 0, 0⟩ ⟨0, 0, 1⟩ ⟨-1, 0, 1⟩
+      ∧ torsionModel T ⟨1, 0, 0⟩ ⟨0, 0, 0⟩ ⟨0, 0, 1⟩ ⟨-1, 0, 1⟩ = -180 := by
+  have hs1 : T.sqrt 1 = 1 := by
+    have h1 := hs.nonneg 1 (by norm_num)
+    have h2 := hs.sq 1 (by norm_num)
+    nlinarith
+  refine ⟨?_, ?_, ⟨?_, ?_⟩, ?_⟩
+  · simp only [NonCollinear, sq3, V3.sub, V3.cross]; norm_num
+  · simp only [NonCollinear, sq3, V3.sub, V3.cross]; norm_num
+  · simp only [direction, directionCode, V3.sub]; norm_num
+  · simp only [torsionNum, V3.sub, V3.cross]; norm_num
+  · have hp := ha.pi_pos
+    simp only [torsionModel, torsionCos, torsionNum, sq3, direction, directionCode, clampUnit, V3.sub, V3.cross]
+    norm_num [hs1, hpi, ha.deg]
+    field_simp
+
+end real
+
 end Shelx.C15
